@@ -600,8 +600,32 @@ def const_term(c):
     return ("const", simplify_val(v))
 
 
+BOTTOM = ("bottom",)
+
+
+def mkphi(ts):
+    """phi of the feasible alternatives: BOTTOM arms (a downcast to a variant the value was not built with) are dropped."""
+    uniq = []
+    for t in ts:
+        if t == BOTTOM:
+            continue
+        if t[0] == "phi":
+            for x in t[1]:
+                if x not in uniq:
+                    uniq.append(x)
+        elif t not in uniq:
+            uniq.append(t)
+    if not uniq:
+        return BOTTOM
+    if len(uniq) == 1:
+        return uniq[0]
+    return ("phi", tuple(uniq))
+
+
 def apply_proj(t, p, body=None, st=()):
     k = p["p"]
+    if t == BOTTOM:
+        return BOTTOM
     if k == "deref":
         if t[0] == "ref":
             return t[2]
@@ -622,13 +646,17 @@ def apply_proj(t, p, body=None, st=()):
             if i < len(t[2]):
                 return t[2][i]
         if t[0] == "phi":
-            return ("phi", tuple(apply_proj(x, p, body, st) for x in t[1]))
+            return mkphi(apply_proj(x, p, body, st) for x in t[1])
         return ("field", t, name)
     if k == "downcast":
         if t[0] == "phi":
-            return ("phi", tuple(apply_proj(x, p, body, st) for x in t[1]))
+            return mkphi(apply_proj(x, p, body, st) for x in t[1])
         if t[0] == "agg" and t[1][0] == "adt" and t[1][2] == p["name"]:
             return t  # (Variant{..} as Variant) -- the following field projection picks the operand
+        if t[0] == "agg" and t[1][0] == "adt" and t[1][2] is not None:
+            # a value built as another variant never reaches a downcast to this one: safe MIR downcasts only under a
+            # discriminant test, so this alternative is infeasible at the use
+            return BOTTOM
         return ("downcast", t, p["name"])
     if k == "index":
         idx = body.resolve_local(p["local"], st) if body is not None else ("local", p["local"])
